@@ -380,14 +380,120 @@ func VerifHarness_Optimizer() {
 	}
 	errors.VerifTag("__ignore_panic", "C02")
 	var o1, o2 verifOutcome
-	p, _ := errors.VerifPanics(func() {
-		o1 = verifRunVM(an, nil, inputs, verifLimits, newVerifCtx())
-		o2 = verifRunVM(opt, nil, inputs, verifLimits, newVerifCtx())
-	})
+	p, _ := errors.VerifPanics(func() { o1 = verifRunVM(an, nil, inputs, verifLimits, newVerifCtx()) })
 	if p {
-		errors.VerifReached("vm-panicked-skipped")
+		errors.VerifReached("vm-panicked-skipped") // the original program crashes the VM: C02's subject
+		return
+	}
+	errors.VerifUntag("__ignore_panic") // a crash of the optimised program alone (in any goroutine) is the optimizer's doing
+	p2, m2 := errors.VerifPanics(func() { o2 = verifRunVM(opt, nil, inputs, verifLimits, newVerifCtx()) })
+	if p2 {
+		// only the optimised program crashes: the optimizer changed the behaviour
+		errors.VerifTag("panic", errors.VerifNorm(m2))
+		errors.VerifAssert("optimised-program-behaves-identically", false)
 		return
 	}
 	errors.VerifReached("ran")
 	errors.VerifAssert("optimised-program-behaves-identically", o1.class == o2.class && o1.out == o2.out && (o1.class != "fatal:UncaughtThrow" || verifHasPrefix(o2.msg, "final") == verifHasPrefix(o1.msg, "final")))
+}
+
+// ---- statements that leave only sometimes ----
+
+// voForms: expression statements (and lets) one part of which leaves the function / loop only on some executions:
+// the code behind them is reachable. %C is a condition (host input P or its negation), %X the exit.
+var voForms = []string{
+	"%C && { %X };",
+	"%C || { %X };",
+	"if %C { %X }",
+	"if %C { println(5); } else { %X }",
+	"match %C { true => { %X }, _ => { println(6); } }",
+	"let sc = %C && { %X };\n  println(sc);",
+	"let w = 1 + { if %C { %X } 2 };\n  println(w);",
+	"let l = [1, { if %C { %X } 2 }];\n  println(l.len());",
+	"try { if %C { %X } println(7); } catch e { println(8); }",
+	"{ %C && { %X }; }",
+	"(%C || { %X }) && true;",
+	"helper2(%C && { %X });",
+	"while %C && { %X } { }",
+}
+var voExits = []string{"return 1;", "break;", "continue;", "throw(\"x\");"}
+
+// VerifHarness_OptimizerDiverge: Optimize(p) behaves like p for every form x exit x position, the condition being an
+// unconstrained host input (so the statement both leaves and falls through).
+func VerifHarness_OptimizerDiverge() {
+	form := errors.VerifNdIntRange("form", 0, len(voForms)-1)
+	exit := errors.VerifNdIntRange("exit", 0, len(voExits)-1)
+	neg := errors.VerifNdIntRange("negated", 0, 1)
+	pos := errors.VerifNdIntRange("position", 0, 2) // 0 function body, 1 nested block, 2 lambda body
+	cond := []string{"P", "!P"}[neg]
+	stmt := ""
+	for i := 0; i < len(voForms[form]); i++ {
+		f := voForms[form]
+		if f[i] == '%' && i+1 < len(f) {
+			if f[i+1] == 'C' {
+				stmt += cond
+			} else {
+				stmt += voExits[exit]
+			}
+			i++
+			continue
+		}
+		stmt += string(f[i])
+	}
+	errors.VerifTag("program", fmt.Sprintf("%s exit=%s cond=%s position=%d", voForms[form], voExits[exit], cond, pos))
+	inLoop := exit == 1 || exit == 2
+	body := "  " + stmt + "\n  println(\"after\");\n"
+	if inLoop {
+		body = "  let n = 0;\n  while n < 2 {\n    n += 1;\n    " + stmt + "\n    println(\"after\", n);\n  }\n  println(\"out\");\n"
+	}
+	fn := ""
+	switch pos {
+	case 0:
+		fn = "fn f() -> int {\n" + body + "  return 2;\n}\n"
+	case 1:
+		fn = "fn f() -> int {\n  {\n" + body + "  }\n  println(\"behind\");\n  return 2;\n}\n"
+	default:
+		fn = "fn f() -> int {\n  let g = fn() -> int {\n" + body + "  return 2;\n  };\n  return g() * 10;\n}\n"
+	}
+	code := "fn helper2(b: bool) { println(b); }\n" + fn + "fn main() {\n  try { println(f()); } catch e { println(\"thrown\"); }\n  println(\"end\");\n}\n"
+	verifDebug("program", code)
+	p := errors.VerifNdBool("P")
+	inputs := []verifInput{{name: "P", kind: 'b', b: p}}
+	an := verifAnalyze(code, nil, inputs, true)
+	if an.hasError {
+		errors.VerifReached("rejected")
+		return
+	}
+	errors.VerifReached("accepted")
+	opt := an
+	panicked, msg := errors.VerifPanics(func() {
+		o := optimizer.NewOptimizer()
+		mods, _ := o.Optimize(an.modules)
+		opt.modules = mods
+	})
+	if panicked {
+		errors.VerifTag("panic", errors.VerifNorm(msg))
+	}
+	errors.VerifAssert("optimizer-never-crashes", !panicked)
+	if panicked {
+		return
+	}
+	errors.VerifTag("__ignore_panic", "C02")
+	var o1, o2 verifOutcome
+	pp, _ := errors.VerifPanics(func() { o1 = verifRunVM(an, nil, inputs, verifLimits, newVerifCtx()) })
+	if pp {
+		errors.VerifReached("vm-panicked-skipped") // the original program crashes the VM: C02's subject
+		return
+	}
+	errors.VerifUntag("__ignore_panic") // a crash of the optimised program alone (in any goroutine) is the optimizer's doing
+	p2, m2 := errors.VerifPanics(func() { o2 = verifRunVM(opt, nil, inputs, verifLimits, newVerifCtx()) })
+	if p2 {
+		// only the optimised program crashes: the optimizer changed the behaviour
+		errors.VerifTag("panic", errors.VerifNorm(m2))
+		errors.VerifAssert("optimised-program-behaves-identically", false)
+		return
+	}
+	errors.VerifReached("ran")
+	errors.VerifTag("got", errors.VerifNorm(o1.out)+" vs "+errors.VerifNorm(o2.out))
+	errors.VerifAssert("optimised-program-behaves-identically", o1.class == o2.class && o1.out == o2.out)
 }
